@@ -115,6 +115,87 @@ func TestC19RoundTrip(t *testing.T) {
 	})
 }
 
+// ---------------------------------------------------------------- C19 (a')
+// the same round trip while several goroutines convert at once: the encoders
+// and decoders are package-level functions that a program calls from every
+// source's goroutine (file watcher, env, flags), so their answer for one word
+// list may not depend on what another goroutine is converting.
+
+type C19ConcurrentCase struct {
+	Lists [][]string `json:"lists"`
+}
+
+func genC19Concurrent(t *rapid.T) C19ConcurrentCase {
+	n := rapid.IntRange(2, 6).Draw(t, "nlists")
+	ls := make([][]string, n)
+	for i := range ls {
+		ls[i] = genC19RoundTrip(t).Words
+	}
+	return C19ConcurrentCase{Lists: ls}
+}
+
+func runC19Concurrent(c C19ConcurrentCase) vrt.Verdict {
+	if len(c.Lists) < 2 {
+		return vrt.Discardf("fewer than two word lists")
+	}
+	for _, l := range c.Lists {
+		if len(l) == 0 {
+			return vrt.Discardf("empty word list")
+		}
+	}
+	const goroutines, rounds = 8, 40
+	errs := make(chan string, goroutines)
+	start := make(chan struct{})
+	for g := 0; g < goroutines; g++ {
+		go func(g int) {
+			<-start
+			for r := 0; r < rounds; r++ {
+				for i := range c.Lists {
+					ws := c.Lists[(i+g)%len(c.Lists)]
+					for _, s := range c19Schemes {
+						enc := s.enc(append(caseconversion.DecodedIdentifier{}, ws...))
+						got, err := s.dec(enc)
+						if err != nil {
+							errs <- fmt.Sprintf("%s: with %d goroutines converting at once, decode(encode(%q)=%q) failed: %v", s.name, goroutines, ws, enc, err)
+							return
+						}
+						if !reflect.DeepEqual([]string(got), ws) {
+							errs <- fmt.Sprintf("%s: with %d goroutines converting at once, decode(encode(%q)=%q) = %q", s.name, goroutines, ws, enc, []string(got))
+							return
+						}
+					}
+				}
+			}
+			errs <- ""
+		}(g)
+	}
+	close(start)
+	bad := ""
+	for g := 0; g < goroutines; g++ {
+		if e := <-errs; e != "" && bad == "" {
+			bad = e
+		}
+	}
+	if bad != "" {
+		return vrt.Violationf("%s", bad)
+	}
+	distinct := map[string]bool{}
+	for _, l := range c.Lists {
+		distinct[strings.Join(l, " ")] = true
+	}
+	return vrt.OK(len(distinct) >= 2, fmt.Sprintf("lists=%d", len(c.Lists)))
+}
+
+func TestC19Concurrent(t *testing.T) {
+	vrt.Check(t, vrt.Prop[C19ConcurrentCase]{
+		ID: "C19", Name: "concurrent", NoJournal: true,
+		Rule: "2..6 word lists as in roundtrip; 8 goroutines each make 40 passes over the lists (each starting at another list) and, for each of the six matched schemes, require decode(encode(ws)) == ws while the others convert other lists; " +
+			"a failure depends on the schedule, so the report carries the word list and the wrong answer itself; non-trivial = at least two distinct lists",
+		Assumptions: []string{"a correct tree cannot fail this check whatever the schedule (the conversions are pure functions); a racy one may pass a given run"},
+		Gen:         genC19Concurrent, Run: runC19Concurrent,
+	})
+}
+
 // ---------------------------------------------------------------- C19 (b)
 // Go identifiers assembled from capitalised words and initialisms.
 
